@@ -150,7 +150,10 @@ def ring_history(it, rng, trials=6):
     ins = input_names(it.decls)
     free = [n_ for n_ in ins if not n_.startswith("_")]
     if free:
-        return None  # held inputs arrive one tick after pasting: the first round trip would see zeros
+        # held inputs arrive one tick after pasting, so the first round trip may see zeros: judge only what
+        # follows -- on an output that is a plain read of a cell, every change of the value must be one
+        # application of f, and a value that is no fixed point of f must not stay
+        return _ring_transitions(it, mems, defs, meta, rng)
     trials = 1
     n = meta["entities"]
     K = 8 * (n + 2)
@@ -211,3 +214,63 @@ def ring_history(it, rng, trials=6):
 def _out_decls(it, names):
     idx = {d[1]: i for i, d in enumerate(it.decls)}
     return [idx[n_] for n_ in names if n_ in idx]
+
+
+def _ring_transitions(it, mems, defs, meta, rng, trials=4):
+    ins = input_names(it.decls)
+    free = [n_ for n_ in ins if not n_.startswith("_")]
+    idx = {d[1]: i for i, d in enumerate(it.decls)}
+    qnames = [o[0] for o in meta["outputs"] if o[0] in idx]
+    direct = []  # (output position, cell) for outputs that are exactly `cell.read()`
+    for pos, name in enumerate(qnames):
+        d = it.decls[idx[name]]
+        for m in mems:
+            if d[0] == "sig" and d[2] == ("var", m["im"]):
+                direct.append((pos, m))
+    if not direct:
+        return None
+    n = meta["entities"]
+    K = 10 * (n + 2)
+    b, ds, qs = f"bp_{it.id}", f"ds_{it.id}", f"qs_{it.id}"
+    cands = sorted(set(S.BOUNDARY) | set(S.thresholds(it.decls)))
+    cands = [c for c in cands if abs(c) <= 1 << 20] or [0, 1, 2]
+    for t in range(trials):
+        env = {n_: rng.choice(cands) for n_ in free}
+        ex = (f"let c := env_of {_lst(it.decls, env)} in "
+              f"fst (fold_left (fun acc _ => let st := step (zalg c) {b} (snd acc) in "
+              f"(fst acc ++ [map (fun q => observe (zalg c) {b} st (q_obs {ds} q)) {qs}], st)) (seq 0 {K}) ([], init {b}))")
+        rc, outs, text = H.coq_eval(defs, [ex], S.EXTRA, tag=f"ringt{it.id}")
+        if not outs or outs[0] is None:
+            continue
+        rows = [[int(x) for x in re.findall(r"-?\d+", row)] for row in re.findall(r"\[([^\[\]]*)\]", outs[0].replace("%Z", ""))]
+        rows = [r_ for r_ in rows if len(r_) == len(qnames)]
+        if len(rows) < K // 2:
+            continue
+        for pos, m in direct:
+            seq_ = [r_[pos] for r_ in rows][n + 4:]      # after everything else has settled
+
+            def f(x):
+                se = dict(env)
+                se["_mr_" + m["name"]] = x
+                se["_mw_" + m["name"]] = x
+                return fa.ev(m["data"], values(it.decls, se))
+
+            if any(("var", mm["im"]) != ("var", m["im"]) and str(("var", mm["im"])) in str(m["data"]) for mm in mems):
+                continue  # f mentions another cell: not a function of this cell alone
+            runs = []
+            for x in seq_:
+                if runs and runs[-1][0] == x:
+                    runs[-1][1] += 1
+                else:
+                    runs.append([x, 1])
+            for (u, _), (v, _) in zip(runs, runs[1:]):
+                if v != f(u):
+                    return {"history": [{"inputs": env, "ticks": K}], "output": qnames[pos],
+                            "observed_change": [u, v], "f_of_the_earlier_value": f(u),
+                            "note": "a plain read of the cell changed from the first to the second value; one application of the written function gives the third"}
+            u, ln = runs[-1]
+            if ln > 4 * (len(it.decls) + 6) and f(u) != u and len(runs) <= 2:
+                return {"history": [{"inputs": env, "ticks": K}], "output": qnames[pos],
+                        "stuck_at": u, "f_of_that_value": f(u),
+                        "note": "a plain read of the cell stays at a value that is no fixed point of the written function"}
+    return None
